@@ -183,6 +183,17 @@ gens:
 		for _, e := range before {
 			beforeMap[string(e.k)] = e.v
 		}
+		// tracer state right before the commit: opTracer.deletes, the paths with a pre-value
+		delList := sortedPaths(trie.VerifC07DeletedList(t))
+		delNodes := map[string]bool{}
+		for _, p := range trie.VerifC07DeletedNodes(t) {
+			delNodes[string(p)] = true
+		}
+		var pvPaths [][]byte
+		for p := range t.Witness() {
+			pvPaths = append(pvPaths, []byte(p))
+		}
+		pvList := sortedPaths(pvPaths)
 		newRoot, nodes := t.Commit(false)
 		nGen++
 
@@ -238,7 +249,7 @@ gens:
 			}
 		}
 		after := dump(disk, scheme)
-		obs = append(obs, L(gets, B(newRoot.Bytes()), nsx, dumpSx(after)))
+		obs = append(obs, L(gets, B(newRoot.Bytes()), nsx, dumpSx(after), delList, pvList))
 
 		// ---- direct oracle ----
 		// (1) the returned root is the root of the content built from scratch
@@ -306,13 +317,11 @@ gens:
 				}
 			}
 		}
-		// embedded-node deletions: deletion entries at a path where the new trie still has a node
+		// embedded-node deletions: deletion entries emitted by committer.store, not by deletedNodes
 		if nodes != nil {
 			for p, n := range nodes.Nodes {
-				if n.IsDeleted() {
-					if _, _, err := trieNodeAt(t2, []byte(p)); err == nil {
-						nEmbDel++
-					}
+				if n.IsDeleted() && !delNodes[p] {
+					nEmbDel++
 				}
 			}
 		}
@@ -380,13 +389,13 @@ gens:
 	return res
 }
 
-func trieNodeAt(t *trie.Trie, path []byte) ([]byte, int, error) {
-	// GetNode takes the compact-encoded path
-	b, n, err := t.GetNode(trie.VerifHexToCompact(path))
-	if err == nil && len(b) == 0 {
-		err = fmt.Errorf("no node")
+func sortedPaths(ps [][]byte) SL {
+	sort.Slice(ps, func(i, j int) bool { return bytes.Compare(ps[i], ps[j]) < 0 })
+	l := SL{}
+	for _, p := range ps {
+		l = append(l, B(p))
 	}
-	return b, n, err
+	return l
 }
 
 func diffDump(a, b []kv) string {
